@@ -19,15 +19,21 @@ from harness.coqio import lit
 
 META = {
     'level': 'proof',
-    'technique': 'Coq model of the TOPDirector line machine with proved decision rules (include / #error activity, decoration invariance, molecule expansion); three-way differential correspondence (include tree, flattened file, model) on generated include trees',
+    'technique': 'Coq model of the TOPDirector line machine with proved decision rules (include / #error activity, decoration invariance, molecule expansion) and a proved inlining theorem for includes of table-only files (simulation argument); three-way differential correspondence (include tree, flattened file, model) on generated include trees',
     'gen_deps': ['Gen_top'],
-    'eval_deps': ['theories/model/TopPre.vo', 'theories/gen/Gen_top.vo'],
+    'eval_deps': ['theories/model/TopPre.vo', 'theories/gen/Gen_top.vo', 'theories/proofs/C08_inline_base.vo'],
     'level_text': ("Theorems in Coq (Props/C08.v) about the executable model of the topology reader: an #include is read and an #error "
                    "aborts exactly when no conditional is open or the open #ifdef/#ifndef (after #else inversion) holds for the macros "
                    "defined so far; cleaning removes comments and surrounding whitespace and tokenisation ignores the amount of inner "
                    "whitespace, so decorated files read identically; blank, comment-only and star lines are skipped; the molecule list "
-                   "is the [molecules] entries expanded in order. The equivalence with the textually flattened file is established by "
-                   "correspondence, not by a theorem: every generated include tree is read by the real parser as a tree and as the "
+                   "is the [molecules] entries expanded in order. Textual inlining is a theorem for the tables "
+                   "(C08_include_is_textual_inlining, by a simulation between the fresh director the reader starts for an included file and "
+                   "the including director run over the same lines, over the section table regenerated from the source): an unconditional "
+                   "#include of a file holding only top-level sections (defaults, atom types, type tables, with defines, conditionals and "
+                   "nested includes) is read exactly as its lines in place of the #include line, nested includes relative to the included "
+                   "file, and leaves only the current-section register behind, which the next header overwrites. For molecule types, "
+                   "conditional includes and the remaining shapes the equivalence with the flattened file is established by "
+                   "correspondence: every generated include tree is read by the real parser as a tree and as the "
                    "flattened single file and by the model, and all three must agree on every observable and on the error class. "
                    "Instance independence (a heap property) is checked by mutation on the implementation only."),
     'level_note': ("Trusted: Coq kernel, the section-table extractor, harness (generator, flattener, observers), vermouth's itp reader "
@@ -449,6 +455,15 @@ def run(ctx):
         ctx.note(str(exc)[:800])
         ctx.broken.append('correspondence:TOPDirector vs model (evaluation failed)')
         return
+    # how many of the generated included files lie in the class of the inlining theorem (C08_include_is_textual_inlining)
+    incl = [(p, ls) for tree in trees[:60] for p, ls in tree['files'].items() if p != tree['root']]
+    try:
+        cls = core.coq_eval_cases(ctx, 'inl', "From PV Require Import TopPre Gen_top C08_inline_base.\nOpen Scope string_scope.\n",
+                                  [f"tbl_lines false {lit([printable(l) for l in ls])}" for _, ls in incl], chunk=200)
+        ctx.extra['inlining_theorem_class'] = {'included_files_examined': len(incl), 'table_only_files_in_class': sum(1 for c in cls if c)}
+        ctx.feature('included_files_in_inlining_theorem_class', sum(1 for c in cls if c))
+    except core.CoqEvalError as exc:
+        ctx.note(str(exc)[:400])
     mism = 0
     for tree, impl, flat, plain, r in zip(trees, impls, flats, plains, res):
         model = model_obs(r)
